@@ -213,7 +213,7 @@ func loadEngine(pkgRels []string) *Engine {
 		maxPaths:        2_000_000,
 		solverBin:       "/usr/bin/z3",
 		solverTimeoutMs: 10000,
-		fallbackTimeoutS: 120,
+		fallbackTimeoutS: 300,
 		xsolvers:        []string{"z3-new", "cvc5"},
 	}
 	for _, p := range prog.AllPackages() {
